@@ -1,42 +1,34 @@
-use std::sync::RwLock;
+use std::sync::{Arc, RwLock};
 
 use lazy_static::*;
 use rayon::*;
 
 lazy_static! {
-    static ref GLOBAL_POOL: RwLock<Option<(usize, ThreadPool)>> = RwLock::new(None);
+    static ref GLOBAL_POOL: RwLock<Option<(usize, Arc<ThreadPool>)>> = RwLock::new(None);
 }
 
-fn get_current_num_threads() -> Option<usize> {
-    GLOBAL_POOL
-        .read()
-        .unwrap()
-        .as_ref()
-        .map(|(th, _)| th)
-        .cloned()
+fn get_current_pool(num_threads: usize) -> Option<Arc<ThreadPool>> {
+    match GLOBAL_POOL.read().unwrap().as_ref() {
+        Some((th, tp)) if *th == num_threads => Some(tp.clone()),
+        _ => None,
+    }
 }
 
-fn global_install_unchecked<OP, R>(op: OP) -> R
-where
-    OP: FnOnce() -> R + Send,
-    R: Send,
-{
-    GLOBAL_POOL
-        .read()
-        .unwrap()
-        .as_ref()
-        .map(|(_, tp)| tp.install(op))
-        .unwrap()
-}
-
-fn set_num_threads(num_threads: usize) {
-    *GLOBAL_POOL.write().unwrap() = Some((
-        num_threads,
-        ThreadPoolBuilder::new()
-            .num_threads(num_threads)
-            .build()
-            .unwrap(),
-    ));
+fn set_num_threads(num_threads: usize) -> Arc<ThreadPool> {
+    let mut pool = GLOBAL_POOL.write().unwrap();
+    match pool.as_ref() {
+        Some((th, tp)) if *th == num_threads => tp.clone(),
+        _ => {
+            let tp = Arc::new(
+                ThreadPoolBuilder::new()
+                    .num_threads(num_threads)
+                    .build()
+                    .unwrap(),
+            );
+            *pool = Some((num_threads, tp.clone()));
+            tp
+        }
+    }
 }
 
 pub fn global_install<OP, R>(num_threads: usize, op: OP) -> R
@@ -44,9 +36,8 @@ where
     OP: FnOnce() -> R + Send,
     R: Send,
 {
-    match get_current_num_threads() {
-        Some(th) if th == num_threads => {}
-        _ => set_num_threads(num_threads),
-    };
-    global_install_unchecked(op)
+    // The lock is released before the job runs, so a job (or a task stolen by a worker
+    // that waits for it) may itself call `global_install` with any thread count.
+    let pool = get_current_pool(num_threads).unwrap_or_else(|| set_num_threads(num_threads));
+    pool.install(op)
 }
